@@ -142,6 +142,23 @@ def run(R):
                 R.count('replace', repr(a)[:200])
                 if not ok:
                     R.counterexample('replace', 'replace-semantics', case, 'new object differing only in the given field, metadata kept', repr(r)[:300])
+            # sequences: the hash is cached on first use; _replace and copies made AFTERWARDS must still hash like
+            # any equal object (equal objects have equal hashes whatever was done to them before)
+            if a._fields:
+                hash(a)
+                f = rnd.choice(a._fields)
+                newval = rnd.choice(['NEWVAL', 7, None, ('t', 1), ['l']])
+                r1 = safe(lambda: a._replace(**{f: newval}))
+                fresh = type(a)(*[newval if x == f else getattr(a, x) for x in a._fields])
+                R.count('hash-after-replace', repr(a)[:200])
+                if r1[0] == 'ok':
+                    h1, h2 = safe(lambda: hash(r1[1])), safe(lambda: hash(fresh))
+                    if not (r1[1] == fresh) or h1 != h2 or h1[0] != 'ok':
+                        R.counterexample('hash-after-replace', 'equal-objects-different-hash-after-replace', case,
+                                         {'fresh': repr(fresh)[:150], 'hash': h2}, {'replaced': repr(r1[1])[:150], 'hash': h1})
+                    back = safe(lambda: r1[1]._replace(**{f: getattr(a, f)}))
+                    if back[0] == 'ok' and (not (back[1] == a) or safe(lambda: hash(back[1])) != safe(lambda: hash(a))):
+                        R.counterexample('hash-after-replace', 'replace-round-trip-hash', case, 'equal and same hash as the original', repr(back)[:150])
             # deepcopy / pickle: equal, independent, same position metadata
             a._metadata.position_info = (3, 4)
             for name, fn in (('deepcopy', lambda: copy.deepcopy(a)), ('pickle', lambda: pickle.loads(pickle.dumps(a)))):
